@@ -13,6 +13,8 @@
 (*                                                                         *)
 (* record:  kind "load" | "dump";  text <<chars>>;  plain BOOLEAN;         *)
 (*   tag   "" or the short name of an explicit tag ("int", "str", ...);    *)
+(*   rb    (dump, tagged scalars only) the emitted document loads back to  *)
+(*         an equal value of the same type;                                *)
 (*   ot    "null" "bool" "int" "float" "date" "datetime" "str",            *)
 (*         "error" (a YAML error) or "exception" (any other exception);    *)
 (*   ov    digest:  int [s, m]   bool [b]   date [y, m, d]                 *)
@@ -70,16 +72,16 @@ ValueIs(hv, ot, ov) ==
     [] hv[1] = "str" -> IF ot = "str" THEN "" ELSE "type"          \* the harness compares the characters
     [] OTHER -> "type"
 
-TagType == {"null", "bool", "int", "float", "timestamp", "str"}
+\* The statement speaks about untagged scalars.  A scalar the dumper wrote with an explicit tag is outside the
+\* repository's rules; it is held to the read-back clause only: rb = loading the emitted document gave the value back.
 Denotes(t) ==
   IF t.ot = "exception" THEN "non-YAML exception"
-  ELSE LET cls == IF t.tag # "" THEN t.tag ELSE H!ClassifyStyled(t.text, t.plain)
-           hv  == IF t.tag # "" THEN (IF t.tag \in TagType /\ (t.tag = "str" \/ H!Member(t.tag, t.text))
-                                      THEN H!ValueAs(t.tag, t.text) ELSE <<"undefined", t.tag, "tagged">>)
-                  ELSE H!ValueAs(cls, t.text)
+  ELSE IF t.tag # "" THEN (IF t.rb THEN "" ELSE "tagged, no read-back")
+  ELSE LET cls == H!ClassifyStyled(t.text, t.plain)
+           hv  == H!ValueAs(cls, t.text)
        IN  IF hv[1] \in {"undefined", "merge", "value"}
            THEN (IF t.kind = "load" THEN "" ELSE "dumped text has no value")     \* a YAML error or any value will do
-           ELSE IF t.ot = "error" THEN "YAML error for a text that has a value"
+           ELSE IF t.ot = "error" THEN "YAML error, text has a value"
            ELSE ValueIs(hv, t.ot, t.ov)
 
 Init == tid \in 1 .. Len(Traces)
